@@ -541,8 +541,20 @@ impl Gen {
         let (a, s) = ty;
         format!("alloc_t{} {h} {a} {s}", if k == 5 { "_owned" } else { "" })
       }
-      6 => format!("alloc_d {h}"),
-      _ => format!("alloc_d_owned {h}"),
+      6 => {
+        if self.rng.chance(25) {
+          format!("alloc_z {h}") // a zero-sized value with a destructor
+        } else {
+          format!("alloc_d {h}")
+        }
+      }
+      _ => {
+        if self.rng.chance(25) {
+          format!("alloc_z_owned {h}")
+        } else {
+          format!("alloc_d_owned {h}")
+        }
+      }
     };
     let ans = self.emit(line);
     if ans.starts_with("r=ok") && k < 6 && self.left > 0 && self.rng.chance(85) {
@@ -1059,6 +1071,16 @@ impl Gen {
   /// `detach` for about half of the live handles (their data must survive), `drop` for the rest,
   /// then `close`
   fn close_all(&mut self) {
+    // now and then an owned handle is the last owner of the arena: it must still give its extent back
+    if self.rng.chance(12) {
+      let owned: Vec<HandleInfo> = self.live().into_iter().filter(|h| h.kind.is_owned() && h.bcap > 0).collect();
+      if !owned.is_empty() {
+        let h = self.rng.pick(&owned).id;
+        if self.emit(format!("close_last {h}")).starts_with("r=ok") {
+          return;
+        }
+      }
+    }
     for h in self.live() {
       let op = if self.rng.chance(50) { "detach" } else { "drop" };
       self.emit(format!("{op} {}", h.id));
